@@ -503,8 +503,8 @@ func runC06(c *CaseCtx) (res CaseResult) {
 // runC06Malformed: malformed options must be ignored or reported, never panic.
 func runC06Malformed(c *CaseCtx, r *rand.Rand) (res CaseResult) {
 	s, _ := genExact(r, r.Intn(2) == 0)
-	kind := r.Intn(11)
-	kinds := []string{"nil-option", "named-nil", "typed-nil", "converterfunc-nil", "converter-42", "converter-nil", "gen-error", "gen-nil-nil", "newfunc-nonfunc", "gen-nil-func", "logger-nil"}
+	kind := r.Intn(12)
+	kinds := []string{"nil-option", "named-nil", "typed-nil", "converterfunc-nil", "converter-42", "converter-nil", "gen-error", "gen-nil-nil", "newfunc-nonfunc", "gen-nil-func", "logger-nil", "converter-typed-nil-func"}
 	res.Key = kinds[kind] + " " + s.Key()
 	res.NonTrivial = true
 	res.obs("malformed_cases", 1)
@@ -536,11 +536,14 @@ func runC06Malformed(c *CaseCtx, r *rand.Rand) (res CaseResult) {
 		bad = am.ConverterGen(nil, nil)
 	case 10:
 		bad = am.Logger(nil)
+	case 11:
+		// a nil value of a function type is not a function to call
+		bad, wantErr = am.Converter((func(T4) T5)(nil)), true
 	case 7:
 		bad = am.ConverterGen(func(am.Value) (*am.Func, error) { return nil, nil })
 	case 8:
 		// construction-time: non-function values
-		for _, x := range []interface{}{nil, 42, "s", struct{}{}, make(chan int), []int{1}, (*int)(nil)} {
+		for _, x := range []interface{}{nil, 42, "s", struct{}{}, make(chan int), []int{1}, (*int)(nil), (func(T0) T1)(nil), (func())(nil)} {
 			func() {
 				defer func() {
 					if p := recover(); p != nil {
